@@ -164,7 +164,7 @@ c02_arm!(c02_same_over_near_over_root_param, chain_cursor(&[C0, C1, U], &[U, C1,
 /// chain U over C1 over C0 (registered outermost first), link U: cursor on the function name, recorded name span symbolic: the overriding fixture itself.
 c02_arm!(c02_same_over_near_over_root_name, chain_cursor(&[C0, C1, U], &[U, C1, C0], 0, At::Name));
 
-/// @harness id=c02_middle_link_param props=C02,C05 tier=quick unwind=30 mem=8 cap=900 gates=worlds
+/// @harness id=c02_middle_link_param props=C02,C05 tier=thorough unwind=30 mem=8 cap=900 gates=worlds
 /// chain U over C1 over C0 (registered innermost first), middle link C1: cursor on the same-named parameter, recorded parameter span symbolic: goes to the next definition outward, never to itself.
 c02_arm!(c02_middle_link_param, chain_cursor(&[U, C1, C0], &[U, C1, C0], 1, At::Param));
 /// @harness id=c02_middle_link_name props=C02,C05 tier=thorough unwind=30 mem=8 cap=900 gates=worlds
@@ -185,7 +185,7 @@ c02_arm!(c02_plugin_over_third_param, chain_cursor(&[V, P, U], &[P, V], 0, At::P
 /// chain P over V, the plugin link: cursor on the function name, recorded name span symbolic: the overriding fixture itself.
 c02_arm!(c02_plugin_over_third_name, chain_cursor(&[V, P, U], &[P, V], 0, At::Name));
 
-/// @harness id=c02_near_over_root_param_either props=C02,C05 unwind=30 mem=8 cap=900 gates=worlds
+/// @harness id=c02_near_over_root_param_either props=C02,C05 tier=quick unwind=30 mem=8 cap=900 gates=worlds
 /// chain C1 over C0: the resolver behind go-to-implementation / call hierarchy, cursor on the same-named parameter:
 /// must describe the parent, like navigation does.
 c02_arm!(c02_near_over_root_param_either, chain_cursor(&[C0, C1, U], &[C1, C0], 0, At::ParamEither));
@@ -195,17 +195,17 @@ c02_arm!(c02_near_over_root_elsewhere, chain_cursor(&[C0, C1, U], &[C1, C0], 0, 
 /// @harness id=c02_outermost_name props=C02 tier=thorough unwind=30 mem=8 cap=900 gates=worlds
 /// chain C1 over C0: cursor on the name of the outermost link (no parameter): itself.
 c02_arm!(c02_outermost_name, chain_cursor(&[C1, C0, U], &[C1, C0], 1, At::Name));
-/// @harness id=c02_multiline_param props=C02 unwind=30 mem=8 cap=900 gates=worlds
+/// @harness id=c02_multiline_param props=C02 tier=quick unwind=30 mem=8 cap=900 gates=worlds
 /// chain C1 over C0 with C1's parameter on the line after `def f(`: cursor on that parameter.
 c02_arm!(c02_multiline_param, chain_cursor(&[C0, C1, U], &[C1, C0], 0, At::ParamNextLine));
-/// @harness id=c02_refs_innermost props=C02,C04,C12 unwind=24 mem=10 cap=1200
+/// @harness id=c02_refs_innermost props=C02,C04,C12 tier=thorough unwind=24 mem=10 cap=1200
 /// chain U over C1 over C0, tests in U and in T2 (sibling directory): references of the innermost link U
 /// (only U's test), symbolic lines.
 c02_arm!(c02_refs_innermost, chain_refs(&[C0, C1, U, T2], &[U, C1, C0], 0));
-/// @harness id=c02_refs_middle props=C02,C04 unwind=24 mem=10 cap=1200
+/// @harness id=c02_refs_middle props=C02,C04 tier=thorough unwind=24 mem=10 cap=1200
 /// same chain: references of the middle link C1 = U's own same-named parameter.
 c02_arm!(c02_refs_middle, chain_refs(&[C0, C1, U, T2], &[U, C1, C0], 1));
-/// @harness id=c02_refs_outermost props=C02,C04 unwind=24 mem=10 cap=1200
+/// @harness id=c02_refs_outermost props=C02,C04 tier=thorough unwind=24 mem=10 cap=1200
 /// same chain: references of the outermost link C0 = C1's parameter and T2's test.
 c02_arm!(c02_refs_outermost, chain_refs(&[C0, C1, U, T2], &[U, C1, C0], 2));
 /// @harness id=c02_refs_third_party_parent props=C02,C04 tier=thorough unwind=24 mem=10 cap=1200
